@@ -18,9 +18,10 @@ structure PendOkW (P : List Pend) (nslow nasync : Nat) (released : List Nat) (ne
     | .cls _ => ∃ n, p.tag = .c n ∧ n ≤ nasync
   minted : ∀ p ∈ P, ∀ i, sidOf p = some i → i < next
   sids : ∀ p ∈ P, (sidOf p).isSome = true
+  relLe : ∀ k ∈ released, k ≤ nslow
 
 theorem PendOk.weak {d : RState} (h : PendOk d) : PendOkW d.pend d.nslow d.nasync d.released d.st.next := by
-  refine ⟨h.tags, h.slots, ?_, h.minted, h.sids⟩
+  refine ⟨h.tags, h.slots, ?_, h.minted, h.sids, h.relLe⟩
   intro p hp
   have := h.shape p hp
   cases hk : p.kind with
@@ -47,7 +48,7 @@ theorem filter_filterMap_sublist {α β} (q : α → Bool) (f : α → Option β
 theorem PendOkW.strong {P : List Pend} {ns na : Nat} {rel : List Nat} {st : State} (h : PendOkW P ns na rel st.next) :
     PendOk { st := st, nslow := ns, nasync := na, released := rel, pend := P.filter (keepOf st) } := by
   refine ⟨List.Nodup.sublist (filter_map_sublist _ _ _) h.tags,
-    List.Nodup.sublist (filter_filterMap_sublist _ _ _) h.slots, ?_, ?_, ?_⟩
+    List.Nodup.sublist (filter_filterMap_sublist _ _ _) h.slots, ?_, ?_, ?_, ?_⟩
   · intro p hp
     have hp' := List.mem_filter.mp hp
     have hsh := h.shape p hp'.1
@@ -59,6 +60,7 @@ theorem PendOkW.strong {P : List Pend} {ns na : Nat} {rel : List Nat} {st : Stat
     | cls i => rw [hk] at hsh hl; exact ⟨hsh, hl⟩
   · intro p hp; exact h.minted p (List.mem_filter.mp hp).1
   · intro p hp; exact h.sids p (List.mem_filter.mp hp).1
+  · exact h.relLe
 
 theorem isLive_eq {s : State} {i : Nat} {e : Sess} (h : findSess i s.tbl = some e) : isLive s i = !e.removed := by
   simp [isLive, h]
@@ -122,9 +124,9 @@ theorem relPreAt_dead {cfg : Cfg} {P : List Pend} {tbl : List MSess} {e : Sess} 
 
 /-- **one entry moves** -/
 theorem sim_one_op {cfg : Cfg} {d d' : RState} {m : Mon} {o : Obs} (hs : Sim cfg d m) {op : Op}
-    {i : Nat} {G : Sess → Sess} {st1 st2 : State} {P : List Pend} {status : St} {hang : Bool} {done0 : List (Tag × Nat)}
+    {i : Nat} {G : Sess → Sess} {st1 st2 : State} {P : List Pend} {status : St} {hdr : Option Name} {hang : Bool} {done0 : List (Tag × Nat)}
     {log : List LogEnt} {ns' na' : Nat} {rel' : List Nat} {tblX : List MSess}
-    (hmo : modelOp d op = some { st := st1, status := status, hdr := none, hang := hang, done := done0, log := log, pend := P, nslow := ns', nasync := na', released := rel' })
+    (hmo : modelOp d op = some { st := st1, status := status, hdr := hdr, hang := hang, done := done0, log := log, pend := P, nslow := ns', nasync := na', released := rel' })
     (hset : st1 = st2 ∨ settle st1 = st2)
     (htbl : st2.tbl = d.st.tbl.map (lift i G)) (hG : KeepsId G) (hcfg : st2.cfg = d.st.cfg) (hnext : st2.next = d.st.next)
     (hnow : st2.now = d.st.now) (hfl : st2.faults = d.st.faults) (hinv : Inv st2)
@@ -142,7 +144,9 @@ theorem sim_one_op {cfg : Cfg} {d d' : RState} {m : Mon} {o : Obs} (hs : Sim cfg
     (htarget : ∀ e ∈ d.st.tbl, e.id = i → EOk cfg d.st.now (nsOf P i) (nrOf P i) (G e) ∧ RelPreAt cfg P tblX (G e))
     (hans : chkAnswerO cfg (effFaults cfg m) m.tbl op.req status = none)
     (hlog : chkLog cfg op.req status log = none)
-    (hnoid : chkNoId cfg op.req status none = false)
+    (hnoid : chkNoId cfg op.req status hdr = false)
+    (hmint : chkMint cfg m.tbl op.req status hdr = none)
+    (hhdr : ∀ h, hdr = some h → h = sname i ∧ (monFind tblX (sname i)).isSome = true)
     (hnotick : nowAfter m op = m.now) (hfault : faultsAfter m op status = m.faults)
     (hcnt : countersAfter m op status = (ns', na'))
     (hop : replayOp d op = some (d', o)) :
@@ -208,10 +212,11 @@ theorem sim_one_op {cfg : Cfg} {d d' : RState} {m : Mon} {o : Obs} (hs : Sim cfg
   have htbl2 : ∃ tbl2, (bookDone m.now tblX (P.filterMap pendOf) (P.filterMap (doneOf st2))).1 = tbl2 ∧
       (∀ j, j ≠ i → monFind tbl2 (sname j) = monFind m.tbl (sname j)) ∧
       (tbl2.map (·.name)).Nodup ∧ (∀ a ∈ tbl2, ∃ j, j < d.st.next ∧ a.name = sname j) ∧
-      (∀ e ∈ d.st.tbl, e.id = i → RelPreAt cfg P tbl2 (G e)) := by
+      (∀ e ∈ d.st.tbl, e.id = i → RelPreAt cfg P tbl2 (G e)) ∧
+      ((monFind tblX (sname i)).isSome = true → (monFind tbl2 (sname i)).isSome = true) := by
     rcases hdead with h | ⟨h, c, hc, x, hx, hxc⟩
-    · exact ⟨tblX, h, hmonX, hnodupX, hmintedX, fun e he hid => (htarget e he hid).2⟩
-    · refine ⟨monUpd tblX (sname i) mDead, h, ?_, ?_, ?_, ?_⟩
+    · exact ⟨tblX, h, hmonX, hnodupX, hmintedX, fun e he hid => (htarget e he hid).2, id⟩
+    · refine ⟨monUpd tblX (sname i) mDead, h, ?_, ?_, ?_, ?_, ?_⟩
       · intro j hj; rw [monFind_monUpd_ne keepsName_mDead _ (sname_ne hj)]; exact hmonX j hj
       · rw [monUpd_names keepsName_mDead]; exact hnodupX
       · intro a ha
@@ -228,7 +233,12 @@ theorem sim_one_op {cfg : Cfg} {d d' : RState} {m : Mon} {o : Obs} (hs : Sim cfg
         have := relPreAt_dead (htarget e he hid).2 hr
         rw [hG e, hid] at this
         exact this
-  obtain ⟨tbl2, htbl2eq, hmon2, hnodup2, hminted2, htarget2⟩ := htbl2
+      · intro hsome
+        rw [monFind_monUpd_self keepsName_mDead]
+        cases hf : monFind tblX (sname i) with
+        | none => rw [hf] at hsome; cases hsome
+        | some x => rfl
+  obtain ⟨tbl2, htbl2eq, hmon2, hnodup2, hminted2, htarget2, hsome2⟩ := htbl2
   -- the relation for the new state
   have hcntP' : ∀ j, j ≠ i → nsOf (P.filter (keepOf st2)) j = nsOf d.pend j ∧ nrOf (P.filter (keepOf st2)) j = nrOf d.pend j := by
     intro j hj; rw [nsOf_filter_keep, nrOf_filter_keep]; exact hcntP j hj
@@ -243,7 +253,24 @@ theorem sim_one_op {cfg : Cfg} {d d' : RState} {m : Mon} {o : Obs} (hs : Sim cfg
     rw [nsOf_filter_keep, nrOf_filter_keep]
     exact this
   have hP1 := tblpre_one hs (pend' := P.filter (keepOf st2)) (tbl2 := tbl2) htbl hG hcfg' hnext hnow hinv hcntP' hmon2 hrelP' hnodup2 hminted2
-  have htc := table_checks hP1.1 hs.stateful (nowAfter m op) op.req status none
+  have htc := table_checks hP1.1 hs.stateful (nowAfter m op) op.req status hdr
+  have hnf : ∀ (ow : Owner), noteFailedInit (nowAfter m op) ow hdr (reapDying ((showMap st2).map (·.name)) tbl2) =
+      reapDying ((showMap st2).map (·.name)) tbl2 := by
+    intro ow
+    unfold noteFailedInit
+    cases hh : hdr with
+    | none => rfl
+    | some h =>
+      obtain ⟨hn, hsome⟩ := hhdr h hh
+      have : (monFind (reapDying ((showMap st2).map (·.name)) tbl2) h).isSome = true := by
+        rw [hn, reapDying_eq, monFind_map (keepsName_reap1 _)]
+        have := hsome2 hsome
+        cases hf : monFind tbl2 (sname i) with
+        | none => rw [hf] at this; cases this
+        | some x => rfl
+      cases hf : monFind (reapDying ((showMap st2).map (·.name)) tbl2) h with
+      | none => rw [hf] at this; cases this
+      | some x => simp [hf]
   -- the bookkeeping, as `monStep` computes it
   have hbd : bookDone (nowAfter m op)
       (bookSlots (bookAnswer cfg (effFaults cfg m) (nowAfter m op) (tagOf m op) (m.tbl.map (expire cfg (nowAfter m op))) m.pend op status).1
@@ -256,21 +283,21 @@ theorem sim_one_op {cfg : Cfg} {d d' : RState} {m : Mon} {o : Obs} (hs : Sim cfg
   · apply monStep_viol_none
     · rw [hexp]; exact hans
     · exact hlog
-    · rfl
-    · show (scanMap cfg (nowAfter m op) op.req status none _ (showMap st2)).2 = none
+    · rw [hexp]; exact hmint
+    · show (scanMap cfg (nowAfter m op) op.req status hdr _ (showMap st2)).2 = none
       rw [hbd, htc.1]
     · exact htc.2.1
-    · show chkGone _ (scanMap cfg (nowAfter m op) op.req status none _ (showMap st2)).1 = none
+    · show chkGone _ (scanMap cfg (nowAfter m op) op.req status hdr _ (showMap st2)).1 = none
       rw [hbd, htc.1]; exact htc.2.2.1
     · exact htc.2.2.2.1
     · exact hnoid
   · obtain ⟨e1, e2, e3, e4, e5, e6, e7⟩ := monStep_mon cfg m op
-      { status := status, hdr := none, hang := hang, done := done0 ++ P.filterMap (doneOf st2), map := showMap st2, srv := showSrv st2, log := log }
+      { status := status, hdr := hdr, hang := hang, done := done0 ++ P.filterMap (doneOf st2), map := showMap st2, srv := showSrv st2, log := log }
     apply sim_finish (tbl2 := tbl2) (d' := { st := st2, nslow := ns', nasync := na', released := rel', pend := P.filter (keepOf st2) })
       hP1.1 hP1.2 hcfg' hs.stateful
     · rw [e1]
-      show noteFailedInit _ _ none (reapDying _ (scanMap cfg (nowAfter m op) op.req status none _ (showMap st2)).1) = _
-      rw [hbd, htc.1]; rfl
+      show noteFailedInit _ _ hdr (reapDying _ (scanMap cfg (nowAfter m op) op.req status hdr _ (showMap st2)).1) = _
+      rw [hbd, htc.1]; exact hnf _
     · rw [e2, hnotick, hnow]; exact hs.now
     · rw [e5]; show faultsAfter m op status = _
       rw [hfault, hfl]; exact hs.faults
